@@ -30,7 +30,13 @@ Ops (tuples; r = R id, a = attribute name):
     ('addtag', r, t) ('rmtag', r, t)
     ('rawread', r, a)            db.get("select a from R where id = $r")   (raw SQL read inside the session)
     ('commit',)                  commit() in the middle of the session: the session goes on with the same cache; locks
-                                 taken so far are released (run.locked is cleared)
+                                 taken so far are released (run.locked is cleared); a new UNIT (transaction) starts
+    ('rollback',)                rollback() in the middle of the session: the unit contributes nothing, the session
+                                 cache is dropped, a new unit starts
+    ('preload', r, how)          plain non-locking read that puts R[r] into the identity map:
+                                 how in pk | code | ckey | query | get_id
+    lock hows, additionally:     by_code | by_code_nowait | by_ckey | by_ckey_skip | query_skip | select_kw
+                                 (get_for_update by secondary unique key / composite key, query variants)
     ('newrow', r)                create R[r] in this session (values NEW_R)
     ('objflush', 'R'|'K', id)    obj.flush() of that single object (after a delete/update of it)
     ('lift', r, c, a)            sorted(R[r].<c>.<a>)  -- item attribute values observed through attribute lifting
@@ -47,7 +53,8 @@ INIT_R = {1: {'x': 10, 'y': 20, 'z': 30, 'n': 40, 'f': 1.5, 'v': 60},
           2: {'x': 11, 'y': 21, 'z': 31, 'n': 41, 'f': 2.5, 'v': 61}}
 INIT_K = {1: (1, 100), 2: (1, 200), 3: (2, 300), 4: (None, 400)}        # kid -> (parent, w)
 INIT_L = {(1, 1), (2, 1), (2, 2)}                                      # (row, tag)
-LOCK_HOWS = ('get_for_update', 'nowait', 'skip_locked', 'query_for_update', 'query_nowait')
+LOCK_HOWS = ('get_for_update', 'nowait', 'skip_locked', 'query_for_update', 'query_nowait',
+             'by_code', 'by_code_nowait', 'by_ckey', 'by_ckey_skip', 'query_skip', 'select_kw')
 
 NEW_R = {'x': 12, 'y': 22, 'z': 32, 'n': 42, 'f': 3.5, 'v': 62}
 ITEM_KINDS = ('iter', 'sorted', 'list', 'copy')          # collection reads that return the members themselves
@@ -70,7 +77,7 @@ class Model(object):
         self.path = os.path.join(tmpdir, 'sp-work.sqlite')
         E = self._make(self.template, create=True)
         with po.db_session:
-            rows = {i: E.R(id=i, **vals) for i, vals in INIT_R.items()}
+            rows = {i: E.R(id=i, code='R%d' % i, kb=7, kc=i, **vals) for i, vals in INIT_R.items()}
             tags = {t: E.T(id=t) for t in (1, 2)}
             for k, (p, w) in INIT_K.items(): E.K(id=k, parent=rows[p] if p else None, w=w)
             for r, t in sorted(INIT_L): rows[r].tags.add(tags[t])
@@ -96,6 +103,10 @@ class Model(object):
             n = po.Required(int, optimistic=False)
             f = po.Required(float)
             v = po.Required(int, volatile=True)
+            code = po.Required(str, unique=True)        # secondary unique key  ('R<id>')
+            kb = po.Required(int)                        # composite key (kb, kc) = (7, id)
+            kc = po.Required(int)
+            po.composite_key(kb, kc)
             kids = po.Set('K')
             tags = po.Set('T')
 
@@ -126,6 +137,17 @@ class Model(object):
         """New Database object + entity classes on the same file (after an aborted schedule)."""
         self.E = self._make(self.path)
         self.E.db.disconnect()
+
+    def txn_open(self, tag):
+        """From the recorder log: the session's last transaction-control event is a BEGIN that returned."""
+        for e in reversed(self.rec.events):
+            if e['tag'] != tag: continue
+            if e['kind'] in ('commit', 'rollback'): return False
+            if e['kind'] == 'execute' and e['sql']:
+                head = e['sql'].lstrip()[:8].upper()
+                if head.startswith('BEGIN'): return e['phase'] == 'ret'
+                if head.startswith(('COMMIT', 'ROLLBACK')): return False
+        return False
 
     def raw(self):
         if self._raw is None:
@@ -189,8 +211,8 @@ def ref_apply(state, ops):
         elif k == 'write': row(op[1])[op[2]] = op[3]
         elif k == 'inc': row(op[1])[op[2]] = row(op[1])[op[2]] + 1
         elif k == 'copy': row(op[1])[op[2]] = row(op[3])[op[4]] + 1
-        elif k in ('flush', 'requery', 'commit', 'objflush'): pass
-        elif k in ('lock', 'load', 'coll', 'rawread', 'lift'): row(op[1])
+        elif k in ('flush', 'requery', 'commit', 'rollback', 'objflush'): pass
+        elif k in ('lock', 'load', 'coll', 'rawread', 'lift', 'preload'): row(op[1])
         elif k == 'newrow':
             if op[1] in R: raise RefError('R exists')
             R[op[1]] = dict(NEW_R)
@@ -234,23 +256,41 @@ def serial_results(sessions, state=None):
 
 
 def segments(sess):
-    """Split a session program at its ('commit',) ops: [(first op index, ops of the segment), ...]."""
+    """Split a session program at its ('commit',) / ('rollback',) ops:
+    [(first op index, ops of the unit, how it ends: 'commit' | 'rollback' | 'exit', index of the ending op), ...]."""
     out = []; cur = []; start = 0
     for i, op in enumerate(sess['ops']):
-        if op[0] == 'commit':
-            out.append((start, cur)); cur = []; start = i + 1
+        if op[0] in ('commit', 'rollback'):
+            out.append((start, cur, op[0], i)); cur = []; start = i + 1
         else: cur.append(op)
-    out.append((start, cur))
+    out.append((start, cur, 'exit', len(sess['ops'])))
     return out
 
 
 def committed_units(sess, run):
-    """Segments of the session whose commit went through: all of them if the session committed, else those that
-    end with a ('commit',) op the run got past."""
-    segs = segments(sess)
-    if run.outcome == 'committed': n = len(segs)
-    else: n = len([c for c in run.commits_done])
-    return [{'name': '%s%d' % (sess['name'], j + 1), 'session': sess['name'], 'ops': ops} for j, (start, ops) in enumerate(segs[:n])]
+    """Units of the session whose commit went through: units ended by a ('commit',) op the run got past, plus the
+    last unit if the session itself committed.  Units ended by ('rollback',) contribute nothing."""
+    out = []
+    for j, (start, ops, end, idx) in enumerate(segments(sess)):
+        if end == 'commit': ok = idx in run.commits_done
+        elif end == 'exit': ok = run.outcome == 'committed'
+        else: ok = False
+        if ok: out.append({'name': '%s%d' % (sess['name'], j + 1), 'session': sess['name'], 'ops': ops})
+    return out
+
+
+def rows_by_unit(sess):
+    """[set of R ids the unit's ops name] per unit (static)."""
+    out = []
+    for start, ops, end, idx in segments(sess):
+        rows = set()
+        for op in ops:
+            if op[0] in ('read', 'write', 'inc', 'find', 'lock', 'load', 'coll', 'rawread', 'lift', 'preload', 'newrow', 'delete', 'addtag', 'rmtag'):
+                rows.add(op[1])
+            elif op[0] == 'copy': rows.add(op[1]); rows.add(op[3])
+            elif op[0] == 'requery': rows.update((1, 2))
+        out.append(rows)
+    return out
 
 
 def serial_results_units(units_per_session, state=None):
@@ -314,8 +354,12 @@ class SessionRun(object):
         self.commits_done = []       # step indexes of ('commit',) ops that returned
         self.locked = set()          # rows obtained with a for_update variant (object actually returned); cleared by commit
         self.lock_results = []       # (step, r, how, 'obj'|'none'|exc class)
-        self.lock_marks = {}         # r -> (recorder seq, committed row) right after the locking call returned
-        self.read_marks = {}         # r -> (recorder seq, committed row) right after the first read of R[r] returned
+        self.unit = 0                # index of the running unit (transaction); +1 at every commit / rollback op
+        self.unit_ends = {}          # unit -> (recorder seq, committed state) taken just before its commit()/rollback()
+        self.rollbacks_done = []
+        self.first_touch = {}        # r -> unit in which the program first named R[r]
+        self.lock_marks = {}         # (unit, r) -> (recorder seq, committed row) right after the locking call returned
+        self.read_marks = {}         # (unit, r) -> (recorder seq, committed row) right after the unit's first read of R[r]
         self.pre_exit = None         # (recorder seq, committed state) inside the session, just before it ends
         self.end_mark = None         # recorder seq after the session ended
 
@@ -344,8 +388,15 @@ def exec_op(model, run, step, op):
         return v
 
     def mark_read(r):
-        if model.track_marks and r not in run.read_marks:
-            run.read_marks[r] = (model.rec.mark(), model.committed_state().get('R', {}).get(r))
+        if model.track_marks and (run.unit, r) not in run.read_marks:
+            run.read_marks[(run.unit, r)] = (model.rec.mark(), model.committed_state().get('R', {}).get(r))
+
+    if k in ('read', 'write', 'inc', 'find', 'lock', 'load', 'coll', 'rawread', 'lift', 'preload', 'newrow', 'delete'):
+        run.first_touch.setdefault(op[1], run.unit)
+    elif k == 'copy':
+        run.first_touch.setdefault(op[1], run.unit); run.first_touch.setdefault(op[3], run.unit)
+    elif k == 'requery':
+        run.first_touch.setdefault(1, run.unit); run.first_touch.setdefault(2, run.unit)
 
     if k == 'read':
         v = observe(('R', op[1], op[2]), lambda: getattr(R[op[1]], op[2]))
@@ -372,13 +423,27 @@ def exec_op(model, run, step, op):
         setattr(R[op[1]], op[2], (int(v) if op[2] != 'f' else v) + 1); return
     if k == 'flush':
         po.flush(); return
-    if k == 'commit':
-        po.commit()
-        run.commits_done.append(step)
-        run.locked.clear()           # the lock ended with the transaction
+    if k in ('commit', 'rollback'):
+        if model.track_marks: run.unit_ends[run.unit] = (model.rec.mark(), model.committed_state())
+        try:
+            if k == 'commit': po.commit(); run.commits_done.append(step)
+            else: po.rollback(); run.rollbacks_done.append(step)
+        finally:
+            run.unit += 1
+            run.locked.clear()       # the lock ended with the transaction
+            run.refs.clear()
+        return
+    if k == 'preload':
+        r, how = op[1], op[2]
+        if how == 'pk': R[r]
+        elif how == 'code': R.get(code='R%d' % r)
+        elif how == 'ckey': R.get(kb=7, kc=r)
+        elif how == 'query': po.select(o for o in R if o.x > 0)[:]
+        elif how == 'get_id': R.get(id=r)
+        else: raise ValueError(how)
         return
     if k == 'newrow':
-        R(id=op[1], **NEW_R); return
+        R(id=op[1], code='R%d' % op[1], kb=7, kc=op[1], **NEW_R); return
     if k == 'objflush':
         o = run.refs.get((op[1], op[2]))                 # a deleted object cannot be looked up again: use the reference
         if o is None: o = (R if op[1] == 'R' else K)[op[2]]
@@ -394,14 +459,21 @@ def exec_op(model, run, step, op):
             elif how == 'skip_locked': o = R.get_for_update(id=r, skip_locked=True)
             elif how == 'query_for_update': o = (po.select(o for o in R if o.id == r).for_update()[:] or [None])[0]
             elif how == 'query_nowait': o = (po.select(o for o in R if o.id == r).for_update(nowait=True)[:] or [None])[0]
+            elif how == 'query_skip': o = (po.select(o for o in R if o.id == r).for_update(skip_locked=True)[:] or [None])[0]
+            elif how == 'select_kw': o = (R.select(id=r).for_update()[:] or [None])[0]
+            elif how == 'by_code': o = R.get_for_update(code='R%d' % r)
+            elif how == 'by_code_nowait': o = R.get_for_update(code='R%d' % r, nowait=True)
+            elif how == 'by_ckey': o = R.get_for_update(kb=7, kc=r)
+            elif how == 'by_ckey_skip': o = R.get_for_update(kb=7, kc=r, skip_locked=True)
             else: raise ValueError(how)
         except Exception as e:
             run.lock_results.append((step, r, how, type(e).__name__)); raise
-        run.lock_results.append((step, r, how, 'obj' if o is not None else 'none'))
+        # DB-API boundary: is a transaction of this session open at the moment the locking call returns?
+        run.lock_results.append((step, r, how, 'obj' if o is not None else 'none', model.txn_open(run.name), run.unit))
         if o is not None:
             run.locked.add(r)
-            if model.track_marks and r not in run.lock_marks:
-                run.lock_marks[r] = (model.rec.mark(), model.committed_state().get('R', {}).get(r))
+            if model.track_marks and (run.unit, r) not in run.lock_marks:
+                run.lock_marks[(run.unit, r)] = (model.rec.mark(), model.committed_state().get('R', {}).get(r))
         return
     if k == 'load':
         R[op[1]].load(); return
